@@ -155,11 +155,11 @@ CLASS_POOLS = {
     ("ForecastingRandomizedSearchCV", "refit"): [True, False],
     ("ForecastingGridSearchCV", "refit"): [True, False],
 }
-NOT_FITTABLE = {"HCrystalBallForecaster", "PCATransformer", "IntervalSegmenter", "Rocket", "MiniRocket",
-                "MiniRocketMultivariate", "TemporalDictionaryEnsemble", "IndividualTDE", "WEASEL",
+# (constructed / cloned / parameter-checked only: a soft dependency is missing at fit,
+# scikit-learn's parameter validation rejects them, or the search takes minutes)
+NOT_FITTABLE = {"HCrystalBallForecaster", "TemporalDictionaryEnsemble", "IndividualTDE", "WEASEL",
                 "ShapeletTransformClassifier", "ContractedShapeletTransform", "ShapeletTransform",
-                "FittedParamExtractor", "ColumnTransformer", "SeriesToPrimitivesRowTransformer",
-                "SeriesToSeriesRowTransformer", "OnlineEnsembleForecaster"}
+                "ColumnTransformer"}
 
 
 def variations(cls, rng):
